@@ -500,10 +500,13 @@ func payloadBody(c *mc.Ctx, item int) mc.Verdict {
 		payload = append(payload, payloadByte(i))
 	}
 	n := len(payload)
-	data := []byte{0x80, 1, 2, 0, 0, 0, 'A', 'B', 0x80, byte(typ), byte(n), byte(n >> 8), 0, 0}
+	// the text before the segment may end in the operator that, in a font, announces encrypted data
+	lead1 := []string{"AB", "eexec", "currentfile eexec", "dup /Private 8 dict dup begin currentfile eexec\r"}[c.Choose(4)]
+	data := append([]byte{0x80, 1, byte(len(lead1)), 0, 0, 0}, lead1...)
+	data = append(data, 0x80, byte(typ), byte(n), byte(n>>8), 0, 0)
 	data = append(data, payload...)
 	data = append(data, 0x80, 1, 1, 0, 0, 0, 'C', 0x80, 3)
-	want := []byte("AB")
+	want := []byte(lead1)
 	for _, b := range payload {
 		if typ == 1 {
 			want = append(want, b)
@@ -525,7 +528,7 @@ func payloadBody(c *mc.Ctx, item int) mc.Verdict {
 		}
 	}
 	c.Step()
-	what := fmt.Sprintf("text AB, %s segment starting with %q (%d bytes), text C, end marker; caller buffer %d", []string{"", "text", "binary"}[typ], lead[:], n, bufSize)
+	what := fmt.Sprintf("text %q, %s segment starting with %q (%d bytes), text C, end marker; caller buffer %d", lead1, []string{"", "text", "binary"}[typ], lead[:], n, bufSize)
 	if err != io.EOF || !bytes.Equal(got, want) {
 		v := mc.Fail("C14:payload-values:wrong-output", fmt.Sprintf("%s: ended with %v, output %q, expected %q", what, err, clipB(got), clipB(want)))
 		v.Render = what
@@ -652,7 +655,7 @@ func main() {
 				Items:  2 * 8 * 8 * 8 * 8 * len(payloadBufs),
 				Body:   payloadBody,
 				Budget: budget,
-				Rule:   fmt.Sprintf("item = segment type {text, binary} x the first four payload bytes from %q (hexadecimal digits of both cases, a non-hexadecimal letter, the marker byte, the end-marker type, NUL, line feed) x caller buffer %v; choice = 0, 3 or 300 further payload bytes; between two text segments, before the end marker; output must be the verbatim / hexadecimal contents: the decoding does not depend on what the payload looks like; non-trivial = all", payloadClasses, payloadBufs),
+				Rule:   fmt.Sprintf("item = segment type {text, binary} x the first four payload bytes from %q (hexadecimal digits of both cases, a non-hexadecimal letter, the marker byte, the end-marker type, NUL, line feed) x caller buffer %v; choices = 0, 3 or 300 further payload bytes, and the text of the preceding segment (AB, or ending in `eexec` with and without a line end); between two text segments, before the end marker; output must be the verbatim / hexadecimal contents: the decoding does not depend on what the payload looks like; non-trivial = all", payloadClasses, payloadBufs),
 			})
 			fams = append(fams, mc.Family{
 				Name:   "large-caller-buffers",
